@@ -174,6 +174,20 @@ CHECKS["C02"] = dict(
     note=TRUST + "Not decided: the two-solution inversion g -> angles -> g, the detector projection round trip, rigid "
          "rotation about the axis under a change of omega (needs angle-addition).")
 
+CHECKS["C15"] = dict(
+    category="other", design_ref="DESIGN.md section 3 / C15",
+    technique="premise checking of a hand proof of schedule independence (ast rules on the numba kernels: write/read sets, "
+              "guards, reduction shape), prange store discipline, field-table agreement",
+    text="Static: the label sweep is a deliberate shared read-modify-write under prange; instead of flagging it, the check "
+         "verifies the syntactic premises of the argument that its fixed point is schedule independent: (R1) only "
+         "pkid[x] = min of the two labels of the same edge, to both ends, under 'labels differ', counter incremented exactly "
+         "there; (R2) the driver stops only after a sweep returned 0, from labels = arange; (R3) renumbering counts roots "
+         "sequentially and its parallel loop writes only its own cell under the 'tagged' guard while reading only root "
+         "cells; (R4) merged-peak sums/means: row table of numbapkmerge <-> pk2dmerge dictionary, scale branch = unscaled "
+         "branch x scale; (R5) no scatter-add under prange (the merge kernel stays sequential).",
+    note=TRUST + "Assumes untorn aligned 8-byte stores and termination. Not decided: equality of the sums with an independent "
+         "oracle, the scipy route.")
+
 NOT_YET = {}
 
 NOT_APPLICABLE = {
